@@ -293,6 +293,8 @@ class KernelEvaluator(FuncEvaluator, XCEvalSerializable):
 
 class RBFEvaluator(FuncEvaluator, XCEvalSerializable):
     _fn = libcider.evaluate_se_kernel
+    # number of features read by the C kernel beyond the kernel length scales
+    _num_extra_feat = 0
 
     def __init__(self, kernel, X1ctrl, alpha):
         if isinstance(kernel, DiffProduct):
@@ -322,6 +324,12 @@ class RBFEvaluator(FuncEvaluator, XCEvalSerializable):
         self._exps = np.ascontiguousarray(0.5 / kernel.length_scale**2)
         self._nctrl, self._nfeat = self._X1ctrl.shape[-2:]
         self._indexes = np.ascontiguousarray(indexes)
+        if self._nfeat != self._exps.size + self._num_extra_feat:
+            raise ValueError(
+                "X1ctrl width must match the number of kernel length scales"
+            )
+        if self._alpha.shape != (self._nctrl,):
+            raise ValueError("alpha must have one entry per control point")
 
     def __call__(self, X1, res=None, dres=None):
         X1full_shape = X1.shape
@@ -362,6 +370,7 @@ class RBFEvaluator(FuncEvaluator, XCEvalSerializable):
 
 class AntisymRBFEvaluator(RBFEvaluator):
     _fn = libcider.evaluate_se_kernel_antisym
+    _num_extra_feat = 1
 
     def __init__(self, kernel, X1ctrl, alpha):
         super(AntisymRBFEvaluator, self).__init__(kernel, X1ctrl, alpha)
